@@ -40,6 +40,9 @@ const (
 	oFailCtx      // fails with an error that wraps context.DeadlineExceeded although the scheduler's context is alive
 )
 
+// errCancelCause is the cause every harness-side cancellation carries.
+var errCancelCause = errors.New("verif: cancellation cause")
+
 func (o outcome) String() string {
 	return [...]string{"ok", "fail", "goexit", "cancelok", "cancelfail", "cancelgoexit", "failctx"}[o]
 }
@@ -194,7 +197,10 @@ func runScenario(sc *scenario) *result {
 	)
 	rec := &scheduler.VerifRecorder{Perturb: sc.Perturb, Seed: sc.Seed}
 	res.lock = &mu
-	ctx, cancelFn := context.WithCancel(context.Background())
+	// cancellation carries a cause: whatever the scheduler reports for a cancelled context must be
+	// ctx.Err() (context.Canceled), never the caller-supplied cause
+	ctx, cancelCause := context.WithCancelCause(context.Background())
+	cancelFn := func() { cancelCause(errCancelCause) }
 	defer cancelFn()
 	doCancel := func() {
 		rec.Add("X cancel-begin")
@@ -1072,7 +1078,8 @@ func runOwnCtx(c *ownCtxCase) (fails []string, info string, trace []string) {
 	release := make(chan struct{})
 	for j := 0; j < n; j++ {
 		j := j
-		ctx, cancelCtx := context.WithCancel(bg)
+		ctx, cancelCause := context.WithCancelCause(bg)
+		cancelCtx := func() { cancelCause(errCancelCause) }
 		cancel := func() {
 			// the job's own context: marked in the trace with the job's id
 			rec.Add(fmt.Sprintf("X cancel-begin j%d", j))
